@@ -13,6 +13,7 @@ import (
 	"fmt"
 	"io"
 	"net/http"
+	"net/url"
 	"strings"
 
 	"github.com/google/uuid"
@@ -122,7 +123,8 @@ func encryptionResponse(conn *net.Conn, serverKey *rsa.PrivateKey, verifyToken [
 }
 
 func authentication(name, hash string) (*Resp, error) {
-	resp, err := http.Get("https://sessionserver.mojang.com/session/minecraft/hasJoined?username=" + name + "&serverId=" + hash)
+	// the name comes from the client: it must not be able to add parameters of its own
+	resp, err := http.Get("https://sessionserver.mojang.com/session/minecraft/hasJoined?username=" + url.QueryEscape(name) + "&serverId=" + url.QueryEscape(hash))
 	if err != nil {
 		return nil, err
 	}
@@ -132,11 +134,19 @@ func authentication(name, hash string) (*Resp, error) {
 	if err != nil {
 		return nil, err
 	}
+	// only a 200 reply carrying a profile confirms the player: an error reply (403, 429, ...) is JSON too
+	if resp.StatusCode != http.StatusOK {
+		return nil, fmt.Errorf("session server answered %s", resp.Status)
+	}
 
 	var Resp Resp
-	err = json.Unmarshal(body, &Resp)
-
-	return &Resp, err
+	if err = json.Unmarshal(body, &Resp); err != nil {
+		return nil, err
+	}
+	if Resp.Name == "" || Resp.ID == uuid.Nil {
+		return nil, errors.New("session server reply carries no profile")
+	}
+	return &Resp, nil
 }
 
 // authDigest computes a special SHA-1 digest required for Minecraft web
